@@ -12,6 +12,7 @@ import Usual.C20.Trace
         EAI_INPROGRESS once the resolving thread has provably stored the result;
       * a GAI_NOWAIT batch gets exactly the notification it asked for, exactly once, after all its
         results, and whoever is notified (callback, signal handler) sees all of them;
+      * getaddrinfo_a leaves the calling thread's signal mask as it found it (frame condition);
       * the queue lock never has two holders (lock/unlock/cond_wait events in log order);
       * crash, hang, foreign callbacks are failures (decided by the driver before it gets here).
     A monitor failure is a concrete violation; model-only rejections are reported as `int`. -/
@@ -195,6 +196,10 @@ def monStep (ga : Nat → Int) (m : Mon) : Ev → MR
       else if it.finals ≠ 0 then .error "final read twice"
       else .ok (m.setI { it with finals := 1, last := 'D' })
     | _, _ => .error s!"final read of an unknown item {b}.{k}"
+  | .mask x b same =>
+    let m := settle m x
+    if same ≠ 1 then .error s!"getaddrinfo_a for batch {b} changed the calling thread's signal mask"
+    else .ok m
   | .fin needSig =>
     match m.bs.filterMap (finBatch m needSig) with
     | [] => .ok m
